@@ -192,6 +192,33 @@ theorem every_interleaving_accepted (acts : List Act) : Accepted (connRun {} act
   rw [hnil] at hcfg
   cases hcfg
 
+/-- The executable trace acceptor (run by the tie on recorded traces of the real code) accepts exactly
+    the traces that can be explained: every request opens a conversation in its kind's initial phase and
+    every reply advances ONE conversation of its own operation ID by a step the protocol allows. -/
+theorem acceptor_decides_explanation (es : List Ev) :
+    Accepted es ↔ ∃ c', Explained [] es c' := by
+  unfold Accepted
+  constructor
+  · intro h
+    cases hl : accRun accInit es with
+    | nil => exact absurd hl h
+    | cons c' rest =>
+      have : c' ∈ accRun accInit es := by rw [hl]; simp
+      obtain ⟨c, hc, he⟩ := (accRun_iff accInit es c').mp this
+      simp [accInit] at hc
+      subst hc
+      exact ⟨c', he⟩
+  · rintro ⟨c', he⟩ hnil
+    have : c' ∈ accRun accInit es := (accRun_iff accInit es c').mpr ⟨[], by simp [accInit], he⟩
+    rw [hnil] at this
+    cases this
+
+/-- In an explanation every request's phase is the one the protocol automaton reaches over the replies
+    attributed to that request (so each request's own replies form a legal conversation prefix). -/
+theorem explained_conversations_reachable (es : List Ev) (c' : Config) (h : Explained [] es c') :
+    ∀ r ∈ c', ∃ ts, run (init r.kind) ts = some r.ph :=
+  explained_reach [] c' es h (by simp)
+
 /-! ### 5. A record written through the API is read back unchanged (plus `_meta`) -/
 
 /-- After an acknowledged create/update of `key` with payload `f :: body` in a key/record store,
